@@ -1608,8 +1608,9 @@ class PyCdlib:
             for rec in self.eltorito_boot_catalog.dirrecords:
                 rec.set_data_location(current_extent, current_extent - part_start)
 
-            current_extent += utils.ceiling_div(self.eltorito_boot_catalog.dirrecords[0].get_data_length(),
-                                                self.logical_block_size)
+            # The catalog takes up one logical block, whether or not it still
+            # has a name in one of the directory hierarchies.
+            current_extent += 1
 
             class _EltoritoEncapsulation:
                 """
@@ -2324,20 +2325,6 @@ class PyCdlib:
         # Parse all of the files starting from the PVD root directory record.
         ic_level, lastbyte = self._walk_directories(self.pvd, extent_to_ptr,
                                                     extent_to_inode, le_ptrs)
-
-        if self.eltorito_boot_catalog is not None:
-            if not self.eltorito_boot_catalog.dirrecords:
-                # We expect the boot catalog to have at *least* one directory
-                # record attached.  If we run across an ISO that doesn't have
-                # that, we attach a "fake" one so that later steps do the right
-                # thing.  Note that this will never be written out since we
-                # don't add it to the main PVD directory structure.
-                new_record = dr.DirectoryRecord()
-                new_record.new_file(self.pvd, self.logical_block_size,
-                                    b'FAKEELT.;1',
-                                    self.pvd.root_directory_record(), 0, '',
-                                    b'', False, 0, time.time())
-                self.eltorito_boot_catalog.add_dirrecord(new_record)
 
         self.interchange_level = max(self.interchange_level, ic_level)
 
@@ -4825,7 +4812,7 @@ class PyCdlib:
             # A link from the El Torito boot catalog...
             if self.eltorito_boot_catalog is None:
                 raise pycdlibexception.PyCdlibInvalidInput('Attempting to make link to non-existent El Torito boot catalog')
-            old_rec = self.eltorito_boot_catalog.dirrecords[0]
+            old_rec = None
         elif udf_old_path is not None:
             # A link from a file on the UDF filesystem...
             (old_ident_unused, old_rec) = self._find_udf_record(udf_old_path)
@@ -4835,8 +4822,16 @@ class PyCdlib:
         # Above we checked to make sure we got at least one old path, so we
         # don't need to worry about the else situation here.
 
-        num_bytes_to_add = self._add_hard_link_to_inode(old_rec.inode,
-                                                        old_rec.get_data_length(),
+        if old_rec is None:
+            # The boot catalog has no data of its own and takes up one logical
+            # block; it need not have a name at the moment to be given one.
+            old_inode = None
+            old_length = self.logical_block_size
+        else:
+            old_inode = old_rec.inode
+            old_length = old_rec.get_data_length()
+
+        num_bytes_to_add = self._add_hard_link_to_inode(old_inode, old_length,
                                                         fmode, boot_catalog_old,
                                                         **kwargs)
 
